@@ -12,3 +12,17 @@ Theorem C09_restart_at_every_subpath_partial : forall arr initial a p,
   exists out, dash_op arr initial a (MoveTo p) = Ok (mk_da (Some p) (Some p) true true [] initial out).
 Proof. exact dash_restarts_at_moveto. Qed.
 Print Assumptions C09_restart_at_every_subpath_partial.
+
+(* ---- "restarted per subpath", in full (DashProofs.v) ---- *)
+Require Import RQ.DashProofs.
+
+(* the dashes of a path are the dashes of its subpaths one after the other: whatever came before a MoveTo - any number of
+   subpaths, closed or left open, in any dash state - the dashes emitted from that MoveTo on are exactly those of the
+   rest of the path taken on its own, appended to exactly those of what came before taken on its own (same errors too) *)
+Theorem C09_dashes_of_a_path_are_the_dashes_of_its_subpaths : forall arr ops1 p ops2 w w1 w2 off,
+  dash_path arr (mk_path (ops1 ++ MoveTo p :: ops2) w) off =
+  do r1 <- dash_path arr (mk_path ops1 w1) off;
+  do r2 <- dash_path arr (mk_path (MoveTo p :: ops2) w2) off;
+  Ok (mk_path (p_ops r1 ++ p_ops r2) NonZero).
+Proof. exact dash_path_concat. Qed.
+Print Assumptions C09_dashes_of_a_path_are_the_dashes_of_its_subpaths.
